@@ -6,7 +6,9 @@
 package main
 
 import (
+	"bytes"
 	"context"
+	"errors"
 	"fmt"
 	"net"
 	"net/http/httptest"
@@ -319,6 +321,9 @@ func runPair(w *hx.Writer, id string, r *hx.RNG, a, b pq) {
 
 type hop struct {
 	flush   bool
+	dump    bool
+	reload  bool
+	fresh   bool // reload into a new Cache that replaces the old one
 	q       pq
 	kind    int
 	replace bool
@@ -326,10 +331,36 @@ type hop struct {
 
 func runHist(w *hx.Writer, id string, r *hx.RNG, ops []hop) {
 	c := newCache(r)
-	defer c.Close()
+	defer func() { c.Close() }()
 	var cops, obs []string
+	var dump []byte
 	hits := 0
 	for i, o := range ops {
+		if o.dump {
+			rec := httptest.NewRecorder()
+			c.Api().ServeHTTP(rec, httptest.NewRequest("GET", "/dump", nil))
+			if rec.Code != 200 {
+				fail(id, "/dump returned %d: %s", rec.Code, rec.Body.String())
+			}
+			dump = append([]byte(nil), rec.Body.Bytes()...)
+			cops = append(cops, "HDump")
+			obs = append(obs, "None")
+			continue
+		}
+		if o.reload {
+			if o.fresh {
+				c.Close()
+				c = newCache(r)
+			}
+			rec := httptest.NewRecorder()
+			c.Api().ServeHTTP(rec, httptest.NewRequest("POST", "/load_dump", bytes.NewReader(dump)))
+			if rec.Code != 200 {
+				fail(id, "/load_dump returned %d: %s", rec.Code, rec.Body.String())
+			}
+			cops = append(cops, hx.App("HReload", hx.Bool(o.fresh)))
+			obs = append(obs, "None")
+			continue
+		}
 		if o.flush {
 			rec := httptest.NewRecorder()
 			c.Api().ServeHTTP(rec, httptest.NewRequest("GET", "/flush", nil))
@@ -450,8 +481,9 @@ func joinLazy(c *cache.Cache, keys []string) bool {
 }
 
 type lop struct {
-	age bool
-	n   int
+	age  bool
+	n    int
+	mode int // ask: how a background refresh fails (0: it does not)
 }
 
 func lname(i int) string { return fmt.Sprintf("n%d.", i) }
@@ -494,22 +526,31 @@ func runLazy(w *hx.Writer, id string, lazy bool, m int, rules [][2]int, ops []lo
 	}
 	var mu sync.Mutex
 	var cur *query_context.Context
-	sync_, bg := false, -1
+	sync_, bg, bgMode := false, -1, 0
 	upstream := sequence.ExecutableFunc(func(_ context.Context, qc *query_context.Context) error {
 		if qc.R() != nil {
 			return nil
 		}
 		q := qc.Q()
 		name := q.Question[0].Name
+		mode := 0
 		mu.Lock()
 		if qc == cur {
 			sync_ = true
 		} else {
 			bg = lid(name)
+			mode = bgMode
 		}
 		mu.Unlock()
+		switch mode {
+		case 1:
+			return errors.New("upstream down")
+		case 2:
+			return nil
+		}
 		r := new(dns.Msg)
 		r.SetReply(q)
+		r.Truncated = mode == 3
 		r.Answer = []dns.RR{&dns.A{
 			Hdr: dns.RR_Header{Name: name, Rrtype: dns.TypeA, Class: dns.ClassINET, Ttl: 300},
 			A:   net.IPv4(10, 0, 0, byte(lid(name))),
@@ -540,7 +581,7 @@ func runLazy(w *hx.Writer, id string, lazy bool, m int, rules [][2]int, ops []lo
 		q.SetQuestion(lname(o.n), dns.TypeA)
 		qCtx := query_context.NewContext(q)
 		mu.Lock()
-		cur, sync_, bg = qCtx, false, -1
+		cur, sync_, bg, bgMode = qCtx, false, -1, o.mode
 		mu.Unlock()
 		walker := sequence.NewChainWalker(chain, nil)
 		if err := walker.ExecNext(context.Background(), qCtx); err != nil {
@@ -562,7 +603,11 @@ func runLazy(w *hx.Writer, id string, lazy bool, m int, rules [][2]int, ops []lo
 		mu.Lock()
 		s, b := sync_, bg
 		mu.Unlock()
-		cops = append(cops, hx.App("LAsk", hx.Ni(o.n)))
+		if o.mode == 0 {
+			cops = append(cops, hx.App("LAsk", hx.Ni(o.n)))
+		} else {
+			cops = append(cops, hx.App("LAskF", hx.Ni(o.n), hx.Ni(o.mode)))
+		}
 		obs = append(obs, hx.App("OAsk", hx.Ni(lid(r.Question[0].Name)), hx.NList(owners(r)), hx.Ni(ip),
 			hx.Bool(s), hx.Opt(b >= 0, hx.Ni(b))))
 	}
@@ -598,8 +643,9 @@ type lazyCase struct {
 	ops   []lop
 }
 
-func ask(n int) lop { return lop{n: n} }
-func age(n int) lop { return lop{age: true, n: n} }
+func ask(n int) lop        { return lop{n: n} }
+func askF(n, mode int) lop { return lop{n: n, mode: mode} }
+func age(n int) lop        { return lop{age: true, n: n} }
 
 // names: 0, 1 targets; 2.. aliases
 func lazyCatalogue() []lazyCase {
@@ -623,6 +669,22 @@ func lazyCatalogue() []lazyCase {
 				// stale twice in a row
 				lazyCase{lazy, 5, rules, []lop{ask(0), age(0), ask(2), age(0), ask(3), ask(0), age(0), age(0), ask(0)}},
 			)
+		}
+	}
+	// the background refresh of a stale hit does not land (error / no response /
+	// truncated reply); the target and another alias are asked afterwards, in both
+	// orders, with and without their own refresh landing
+	for _, lazy := range []bool{true, false} {
+		for _, rules := range [][][2]int{r3, r1, nil} {
+			for mode := 1; mode <= 3; mode++ {
+				out = append(out,
+					lazyCase{lazy, 5, rules, []lop{ask(0), age(0), askF(2, mode), ask(0), ask(3)}},
+					lazyCase{lazy, 5, rules, []lop{ask(0), age(0), askF(2, mode), ask(3), ask(0)}},
+					lazyCase{lazy, 5, rules, []lop{ask(0), age(0), askF(2, mode), askF(0, mode), askF(3, mode), askF(2, mode)}},
+					lazyCase{lazy, 5, rules, []lop{ask(2), age(0), askF(3, mode), askF(2, mode), askF(0, mode)}},
+					lazyCase{lazy, 5, rules, []lop{ask(0), ask(1), age(0), age(1), askF(4, mode), askF(2, mode), askF(1, mode), ask(0), ask(1)}},
+				)
+			}
 		}
 	}
 	return out
@@ -651,8 +713,15 @@ func genLazy(r *hx.RNG) lazyCase {
 		default:
 			lc.ops = append(lc.ops, ask(r.Intn(lc.m)))
 		}
+		if o := &lc.ops[len(lc.ops)-1]; !o.age && r.Chance(1, 3) {
+			o.mode = r.Range(1, 3)
+		}
 	}
-	lc.ops = append(lc.ops, ask(0))
+	last := ask(0)
+	if r.Chance(1, 3) {
+		last.mode = r.Range(1, 3)
+	}
+	lc.ops = append(lc.ops, last)
 	return lc
 }
 
@@ -1211,6 +1280,72 @@ func genHist(r *hx.RNG) []hop {
 	return ops
 }
 
+// Histories with dump and reload. Names are plain host names (a dump packs the
+// stored messages), the pool is small so that several different questions are
+// stored, every one of them is asked again after the reload.
+func genDumpHist(r *hx.RNG) []hop {
+	names := []string{"a.", "A.", "b.", "ab.", "a.b.", "example.com.", "EXAMPLE.com."}
+	var pool []pq
+	base := pq{d: qd{qs: []quest{{name: lit(hx.Pick(r, names)), t: hx.Pick(r, smallTypes), c: hx.Pick(r, smallClasses)}},
+		ad: r.Bool(), cd: r.Bool()}, do: r.Bool()}
+	pool = append(pool, base)
+	for np := r.Range(3, 6); len(pool) < np; {
+		b := pool[r.Intn(len(pool))]
+		e := pq{d: b.d.clone(), do: b.do}
+		switch r.Intn(6) {
+		case 0:
+			e.d.qs[0].name = lit(hx.Pick(r, names))
+		case 1:
+			e.d.qs[0].t = hx.Pick(r, []uint16{b.d.qs[0].t ^ 256, b.d.qs[0].t + 1, hx.Pick(r, smallTypes)})
+		case 2:
+			e.d.qs[0].c = hx.Pick(r, []uint16{b.d.qs[0].c ^ 256, b.d.qs[0].c ^ 2, hx.Pick(r, smallClasses)})
+		case 3:
+			e.d.ad = !e.d.ad
+		case 4:
+			e.d.cd = !e.d.cd
+		default:
+			e.do = !e.do
+		}
+		pool = append(pool, e)
+	}
+	var ops []hop
+	store := func() {
+		for _, i := range r.Perm(len(pool)) {
+			if r.Chance(4, 5) {
+				kind := 1
+				if r.Chance(1, 6) {
+					kind = hx.Pick(r, []int{0, 2, 4})
+				}
+				ops = append(ops, hop{q: pool[i], kind: kind})
+			}
+		}
+	}
+	probe := func() {
+		for _, i := range r.Perm(len(pool)) {
+			ops = append(ops, hop{q: pool[i], kind: hx.Pick(r, []int{0, 0, 1})})
+		}
+	}
+	store()
+	ops = append(ops, hop{dump: true})
+	switch r.Intn(4) {
+	case 0: // restart
+		ops = append(ops, hop{reload: true, fresh: true})
+	case 1: // flushed, then restored
+		ops = append(ops, hop{flush: true}, hop{reload: true})
+	case 2: // loaded on top of newer entries
+		store()
+		ops = append(ops, hop{reload: true})
+	default:
+		ops = append(ops, hop{reload: true})
+	}
+	probe()
+	if r.Chance(1, 3) { // a second generation
+		ops = append(ops, hop{dump: true}, hop{reload: true, fresh: r.Bool()})
+		probe()
+	}
+	return ops
+}
+
 // ---------- catalogue ----------
 
 type keyCase struct {
@@ -1337,6 +1472,20 @@ func main() {
 			d.extra = ex
 			runCtx(w, id, d)
 		}
+	}
+
+	// histories with dump and reload
+	nd := o.Count(60, 3000)
+	if o.N > 0 {
+		nd = o.N / 10
+	}
+	for i := 0; i < nd; i++ {
+		id := fmt.Sprintf("dump:%d", i)
+		if !o.Want(id) {
+			continue
+		}
+		r := hx.NewRNG(o.Seed, id)
+		runHist(w, id, r, genDumpHist(r))
 	}
 
 	// redirect + (lazy) cache
